@@ -22,6 +22,7 @@ const c04bYang = `module m { namespace "urn:m"; prefix m; revision 2020-01-01;
 	leaf-list bl { type bits { bit x; bit y; } }
 	leaf-list names { type string; }
 	leaf-list rl { type leafref { path "../names"; } }
+	leaf lr1 { type leafref { path "../names"; } }
 	leaf single { type string; }
 	leaf-list rl2 { type leafref { path "../single"; } }
 	leaf count { type int32; }
@@ -76,8 +77,8 @@ func H_C04_more_types_roundtrip(s any) {
 	src := newMemStore()
 	src.quiet = true
 	r := src.root
-	kind := vpChoose(14)
-	ids := []string{"enum-leaf-list", "numeric-enum-names", "identityref-leaf-list", "bits-leaf-list", "leafref-leaf-list", "leafref-to-identityref", "leafref-to-enum", "union-enum-member", "union-identityref-member", "union-leaf-list-mixed", "union-boolean-string", "union-number", "leafref-leaf-list-to-leaf", "leafref-leaf-list-to-number"}
+	kind := vpChoose(15)
+	ids := []string{"enum-leaf-list", "numeric-enum-names", "identityref-leaf-list", "bits-leaf-list", "leafref-leaf-list", "leafref-to-identityref", "leafref-to-enum", "union-enum-member", "union-identityref-member", "union-leaf-list-mixed", "union-boolean-string", "union-number", "leafref-leaf-list-to-leaf", "leafref-leaf-list-to-number", "leafref-leaf-to-leaf-list"}
 	switch kind {
 	case 0:
 		order := [][]int{{1, 0}, {0, 1, 2}, {2}}[vpChoose(3)]
@@ -118,6 +119,9 @@ func H_C04_more_types_roundtrip(s any) {
 	case 13:
 		r.leaves["count"] = val.Int32(1)
 		r.leaves["rl3"] = val.Int32List([]int32{1, 2})
+	case 14:
+		r.leaves["names"] = val.StringList([]string{"p", "q"})
+		r.leaves["lr1"] = val.String("p")
 	}
 	c04bRoundTrip(m, src, vpBool(), "C04-"+ids[kind], ids[kind])
 	vpCover("reached")
